@@ -66,6 +66,13 @@ def gen_instance(rng, big: bool = False, terminals: bool = False) -> dict:
         r = rng.random()
         if r < 0.7:
             m = {"name": f"M{i}", "kind": "soft", "area": round(rng.uniform(0.05, amax), rng.choice([1, 2, 9])) or 0.5}
+            if rng.random() < 0.35:  # FPGA-style area per region type; the disc is that of the TOTAL area
+                tot, regs = m["area"], rng.sample(["DSP", "BRAM", "LUT", "_"], rng.randint(1, 3))
+                if rng.random() < 0.4 and "_" in regs and len(regs) > 1:
+                    regs.remove("_")  # nothing in the ground region
+                cuts = sorted(rng.uniform(0.05, 0.95) for _ in range(len(regs) - 1))
+                parts = [b - a for a, b in zip([0.0] + cuts, cuts + [1.0])]
+                m["area"] = {r: max(round(tot * p_, 4), 0.001) for r, p_ in zip(regs, parts)}
             if rng.random() < 0.4:
                 m["center"] = [rng.uniform(0, W), rng.uniform(0, H)]
             mods.append(m)
@@ -125,7 +132,9 @@ def yaml_text(inp: dict) -> str:
         k = m["kind"]
         c = "" if m.get("center") is None else f", center: [{m['center'][0]!r}, {m['center'][1]!r}]"
         if k == "soft":
-            lines.append(f"  {m['name']}: {{area: {m['area']!r}{c}}}")
+            a = m["area"]
+            atxt = repr(a) if not isinstance(a, dict) else "{" + ", ".join(f"{k}: {v!r}" for k, v in a.items()) + "}"
+            lines.append(f"  {m['name']}: {{area: {atxt}{c}}}")
         elif k in ("fixed", "hard"):
             lines.append(f"  {m['name']}: {{{k}: true, rectangles: {[[float(v) for v in r] for r in m['rects']]!r}}}")
         elif k == "terminal":
@@ -603,7 +612,7 @@ def check_delta_escape(ctx: Ctx) -> None:
 def run(ctx: Ctx) -> None:
     import time
     rng = ctx.rng
-    ctx.rule = ("instances: die 5..25 (integer and decimal sizes), 4..7 (thorough 9) movable modules (soft with/without centre, hard with 1-3 "
+    ctx.rule = ("instances: die 5..25 (integer and decimal sizes), 4..7 (thorough 9) movable modules (soft with/without centre, area as a number or split over region types incl. nothing in `_`; hard with 1-3 "
                 "rectangles) + 0..3 fixed modules (rectangles), connected net list (random spanning tree, chain or star + extra nets of arity "
                 "2..5, default and explicit weights), every disc fits; runs: Python `random` seeded per run, nfloorplans 0..3 (0 = use the "
                 "given centres), draws captured. Streams: unit ops (normalize F/Q, ortho, andp, nsum, centroids, swl, recenter F/Q), `sld` = "
@@ -651,6 +660,8 @@ def run(ctx: Ctx) -> None:
         inp["judge"] = not any(m["kind"] == "terminal" for m in inp["mods"])
         ctx.count(f"nfloorplans-{inp['nfl']}")
         ctx.count("mix:" + "".join(sorted({m["kind"][0] for m in inp["mods"]})))
+        if any(isinstance(m.get("area"), dict) for m in inp["mods"]):
+            ctx.count("has-multi-region-soft-module")
         check_layout_run(ctx, inp, judge=inp["judge"])
 
 
